@@ -28,7 +28,7 @@ Record facts := {
   f_concat : list (bool * bool * bw);
   f_macro_forced : bool;                                (* macro_body returns the buffer unescaped *)
   f_macro_default_rt : bool;                            (* Macro(..., context.eval_ctx.autoescape) *)
-  f_callblock_raw : bool;                               (* the macro's result is written as it is *)
+  f_callblock : list (bool * bool * ow);                (* wrapper around the result of a call block's call *)
   f_invoke : list (bool * bool);                        (* Macro._invoke: autoescape -> wraps in Markup *)
   f_blockref : list (bool * bool)                       (* BlockReference.__call__ *)
 }.
@@ -86,7 +86,7 @@ Definition facts_ok (f : facts) : bool :=
   match f_assign_plain f with AMarkupSel => true | AEscSel => false end &&
   match f_assign_filter f with AEscSel => true | AMarkupSel => false end &&
   bw_tbl_ok (f_concat f) &&
-  f_macro_forced f && f_macro_default_rt f && f_callblock_raw f &&
+  f_macro_forced f && f_macro_default_rt f && ow_tbl_ok (f_callblock f) &&
   flag_tbl_ok (f_invoke f) && flag_tbl_ok (f_blockref f).
 
 (* the compile-time mode descriptors of EscLang2 as (volatile, autoescape) pairs *)
